@@ -553,6 +553,8 @@ def rare_keygen_seeds(s):
     """seeds that hit rare sampler events: ML-DSA-65 seeds for which one RejBoundedPoly call needs more than two SHAKE256 blocks; special RejNTTPoly candidates"""
     # every set: seeds whose ExpandA meets a rare 23-bit candidate - an accepted 0 or q - 1, a rejected q or 2^23 - 1 (checks/mk_corpus_expa.py)
     out = [bytes.fromhex(x) for xs in rare_inputs().get('expand_a_special', {}).get('cases', {}).get(s, {}).values() for x in xs]
+    # seeds for which one polynomial of ExpandA rejects six or more of its first 261 candidates (checks/mk_corpus_expa2.py)
+    out += [bytes.fromhex(e['xi']) for e in rare_inputs().get('expand_a_many_rejections', {}).get('cases', {}).get(s, [])]
     if s == '65':
         out += [bytes.fromhex(e['xi']) for e in rare_inputs()['keygen65_long_rejection']]
     return out
